@@ -9,8 +9,8 @@ import engine
 import prepare as prep
 from proto import IMPL, MODEL, VERIF, kv, run_batch
 
-EVIDENCE_DIR = os.path.join(VERIF, "evidence")
-REPLAY_DIR = os.path.join(VERIF, "evidence", "replays")
+EVIDENCE_DIR = os.environ.get("VERIF_EVIDENCE", os.path.join(VERIF, "evidence"))
+REPLAY_DIR = os.path.join(EVIDENCE_DIR, "replays")
 KNOWN = os.path.join(VERIF, "known_findings.json")
 
 TRUSTED_BASE = [
